@@ -135,7 +135,7 @@ class MDPView:
         self.kind = spec['kind']
         self.n = spec['n']
         self.absorbing = set(spec['absorbing'])
-        self.N = self.n + len(self.absorbing)
+        self.N = spec.get('N', self.n + len(self.absorbing))
         self.gamma = spec['gamma']
         self.A = {}
         self.T = {}
